@@ -301,6 +301,8 @@ class Stub(object):
         rp = info.result
         if info.is_ctor:
             res = None
+            if isinstance(this, Ptr) and this.obj is not None:
+                this.obj.tag["class"] = info.cls.typemap.name
             ex.events.append(("ctor", name, this))
         elif rp is None:
             res = None
@@ -330,8 +332,12 @@ class Stub(object):
                     res = None
                 else:
                     owner = rp.attrs.get("owner", "library")
-                    o = ex.new_obj("lib_string", 32, "heap" if owner == "caller" else "extern", "new" if owner == "caller" else None)
+                    if rp.ref:
+                        owner = "library"
+                    fam = "pattern:" + rp.attrs["free_pattern"] if rp.attrs.get("free_pattern") else "new"
+                    o = ex.new_obj("lib_string", 32, "heap" if owner == "caller" else "extern", fam if owner == "caller" else None)
                     o.tag["owner"] = owner
+                    o.tag["class"] = "std::string"
                     ex.strings[(o.id, 0)] = s
                     res = Ptr(o, 0)
                     rinfo["obj"] = o
@@ -351,7 +357,10 @@ class Stub(object):
                 owner = rp.attrs.get("owner", "library")
                 if rp.ref:
                     owner = "library"
-                o = ex.new_obj("lib_instance", 64, "heap" if owner == "caller" else "extern", "new" if owner == "caller" else None)
+                fam = "new"
+                if rp.attrs.get("free_pattern"):
+                    fam = "pattern:" + rp.attrs["free_pattern"]
+                o = ex.new_obj("lib_instance", 64, "heap" if owner == "caller" else "extern", fam if owner == "caller" else None)
                 o.tag["owner"] = owner
                 o.tag["class"] = rp.tname
                 res = Ptr(o, 0)
@@ -698,6 +707,36 @@ class WrapperHarness(object):
                                 z3.And(z3.ULT(i, rinfo["len"]), z3.Select(self.ret.obj.arr, bv(self.ret.off) + i) != z3.Select(rinfo["arr"], i))))
         return out
 
+    def handoffs(self, e, ex):
+        """(idtor, allocator family, type) of every object this wrapper hands to the caller through a capsule/context."""
+        out = []
+        for (kind, key), o in self.inp.items():
+            if not ((kind == "capsule" and key == "@result") or kind == "context"):
+                continue
+            if isinstance(o, tuple):
+                continue
+            addr = o.cells.get(0, (0, None))[1]
+            idt = o.cells.get(8, (0, None))[1]
+            if not isinstance(addr, Ptr) or addr.obj is None or idt is None or isinstance(idt, Ptr):
+                continue
+            k = conc(idt)
+            out.append({"function": self.cname, "idtor": k, "family": addr.obj.alloc, "type": addr.obj.tag.get("class") or addr.obj.name,
+                        "owner": addr.obj.tag.get("owner"), "object_kind": addr.obj.kind})
+        return out
+
+    def ownership_checks(self, e, ex):
+        out = []
+        for h in self.handoffs(e, ex):
+            if h["idtor"] is None:
+                out.append(("the destructor index stored for the caller is not a constant", True))
+                continue
+            owned = h["object_kind"] == "heap" and h["family"] is not None
+            if owned and h["idtor"] == 0:
+                out.append(("memory the caller owns (%s, %s) is handed over with idtor 0: it would never be released" % (h["type"], h["family"]), True))
+            if not owned and h["idtor"] != 0:
+                out.append(("library-owned memory (%s) is handed over with idtor %d: releasing the handle would free it" % (h["type"], h["idtor"]), True))
+        return out
+
     def memory_checks(self, e, ex):
         """temporaries the wrapper allocated are released exactly once before it returns, unless
         they are handed to the caller through a capsule / context."""
@@ -777,7 +816,7 @@ class WrapperHarness(object):
             return {"cls": cls, "violation": w, "vkey": "%s:exc" % self.cname}
         ex = value
         nq = 0
-        for what, bad in self.checks(e, ex) + self.memory_checks(e, ex):
+        for what, bad in self.checks(e, ex) + self.memory_checks(e, ex) + self.ownership_checks(e, ex):
             nq += 1
             if bad is True or (not isinstance(bad, bool) and e.check(bad) == "sat"):
                 m = e.model() if bad is True else e.model(bad)
@@ -785,7 +824,7 @@ class WrapperHarness(object):
                         "counters": {"assertions": nq}}
         if self.twin:
             return {"cls": cls, "violation": self.witness(e.model(), "reachability twin"), "vkey": "twin"}
-        return {"cls": cls, "sample": self.witness(e.model(), None), "counters": {"assertions": nq}}
+        return {"cls": cls, "sample": self.witness(e.model(), None), "counters": {"assertions": nq}, "extra": self.handoffs(e, ex)}
 
 
 def lc_conc(v):
